@@ -15,6 +15,7 @@ structure PNode where
   h : Nat
   id : Nat
   sig : Bool
+  dk : Nat := 0
   refs : Nat
   grp : Option Nat
   ins : Array (Option NodePort)
@@ -29,6 +30,8 @@ structure PGraph where
   groups : Array (List Nat) := #[]
   clocks : Array (List NodePort) := #[]
   calive : Array Bool := #[]              -- clock object still exists
+  cdrv : Array (Option Nat) := #[]        -- Clock::m_clockDriver
+  rdrv : Array (Option Nat) := #[]        -- Clock::m_resetDriver
   nextId : Nat := 0
 deriving Inhabited
 
@@ -53,6 +56,8 @@ def PGraph.toState (g : PGraph) : State :=
     nclocks := g.clocks.size
     clocked := fun x => g.clocks.getD x []
     calive := fun x => g.calive.getD x false
+    dk := fun h => match nd h with | some n => n.dk | none => 0
+    drv := fun k c => if k = 1 then g.cdrv.getD c none else if k = 2 then g.rdrv.getD c none else none
     order := g.order
     nextId := g.nextId }
 
@@ -61,7 +66,7 @@ def tabulate (s : State) : PGraph :=
     order := s.order
     nodes := (List.range s.size).foldl (fun a h =>
       if s.alive h then
-        a.push { h := h, id := s.nid h, sig := s.isSig h, refs := s.refs h, grp := s.grp h,
+        a.push { h := h, id := s.nid h, sig := s.isSig h, dk := s.dk h, refs := s.refs h, grp := s.grp h,
                  ins := ((List.range (s.numIn h)).map (s.inp h)).toArray,
                  outs := ((List.range (s.numOut h)).map fun o => (s.ctype h o, s.conns h o)).toArray,
                  clks := ((List.range (s.numClk h)).map (s.clk h)).toArray }
@@ -69,6 +74,8 @@ def tabulate (s : State) : PGraph :=
     groups := ((List.range s.ngroups).map s.gnodes).toArray
     clocks := ((List.range s.nclocks).map s.clocked).toArray
     calive := ((List.range s.nclocks).map s.calive).toArray
+    cdrv := ((List.range s.nclocks).map (s.drv 1)).toArray
+    rdrv := ((List.range s.nclocks).map (s.drv 2)).toArray
     nextId := s.nextId }
 
 /-- every live node belongs to a group (required of complete designs; `Circuit::createNode` alone leaves the group unset) -/
